@@ -349,7 +349,7 @@ def make_script(c, rng, kind, budget):
 def gen_cases(tier, rng):
     out = []
     if tier == "quick":
-        n_real, n_scaled = 12, 120
+        n_real, n_scaled = 2, 100
     elif tier == "widen":
         n_real, n_scaled = 24, 600
     else:
